@@ -1005,10 +1005,17 @@ func (wt StandardWitnessType) AddWeightEstimation(e *TxWeightEstimator) error {
 	}
 
 	// If this is a nested P2SH input, then we'll need to factor in
-	// the additional data push within the sigScript.
-	if isNestedP2SH {
+	// the additional data push within the sigScript. A nested P2WKH
+	// input pushes a 22-byte witness program, only a nested P2WSH input
+	// pushes a 34-byte one.
+	switch {
+	case isNestedP2SH && wt == NestedWitnessKeyHash:
+		e.AddNestedP2WKHInput()
+
+	case isNestedP2SH:
 		e.AddNestedP2WSHInput(size)
-	} else {
+
+	default:
 		e.AddWitnessInput(size)
 	}
 
